@@ -116,6 +116,11 @@ func belongs(q *Query, id string, u scopeUnit) bool {
 	if q.Smoke {
 		return true
 	}
+	if q.Kind == "frame" {
+		// what a unit may write is part of every property it is a unit of: its callers assume
+		// the frame its contract states
+		return true
+	}
 	if q.Label != "" && q.Label != "frame" {
 		head := q.Label
 		if i := strings.Index(head, "."); i >= 0 {
